@@ -68,6 +68,8 @@ def gen_cases(rng, tier):
     for t in IDS:
         for c in itertools.product('TCAG', repeat=3):
             cases.append({'id': t, 'codon': ''.join(c)})
+    for t in IDS:      # the whole inverse table of every id (rows incl. the stop symbol '*', codon sets)
+        cases.append({'id': t, 'ttinv': True})
     for _ in range(12000 if tier == 'thorough' else 1500):
         cases.append({'id': rng.choice(IDS), 'codon': ''.join(rng.choice(LETTERS) for _ in range(3))})
     return cases
@@ -76,18 +78,38 @@ def gen_cases(rng, tier):
 def impl(case):
     from sugar.data import gcode
     gc = gcode(case['id'])
-    c = case['codon']
     assert gc.id == case['id']
+    if case.get('ttinv'):
+        assert all(isinstance(v, set) for v in gc.ttinv.values()), 'ttinv rows are not sets'
+        return [[a, sorted(codon_num(x) for x in gc.ttinv[a])] for a in sorted(gc.ttinv)]
+    c = case['codon']
     return [gc.tt.get(c), c in gc.starts, c in gc.stops, c in gc.astarts, c in gc.astops]
 
 
+def agree(case, iv, mv):
+    if case.get('ttinv') and isinstance(mv, list):      # row order / codon order of the JSON file are not part of the claim
+        mv = sorted([a, sorted(cs)] for a, cs in mv)
+    return iv == mv
+
+
 def model_term(case):
+    if case.get('ttinv'):
+        return 'out (run_C17_ttinv G_gcrec_%d.rec)' % case['id']
     return 'out (run_C17 G_gcrec_%d.rec %s)' % (case['id'], coq_N(codon_num(case['codon'])))
 
 
 def spec(case, got):
     if isinstance(got, dict):
         return 'raised ' + got['e']
+    if case.get('ttinv'):
+        aa, _ = prt()[case['id']]
+        cod = [a + b + c for a in 'TCAG' for b in 'TCAG' for c in 'TCAG']
+        exp = sorted([x, sorted(codon_num(c) for c, y in zip(cod, aa) if y == x)] for x in set(aa))
+        if got != exp:
+            return 'gcode(%d).ttinv: rows %r, the NCBI definition has %r; first differing row: %r' % (
+                case['id'], ''.join(r[0] for r in got), ''.join(r[0] for r in exp),
+                next(((g, e) for g, e in zip(got, exp) if g != e), None))
+        return None
     exp = expected(case['id'], case['codon'])
     if got != exp:
         return 'gcode(%d) for %s: expected [tt, start, stop, astart, astop] = %r got %r' % (case['id'], case['codon'], exp, got)
@@ -95,17 +117,23 @@ def spec(case, got):
 
 
 def nontrivial(case, got):
+    if case.get('ttinv'):
+        return 'ttinv'
     if any(ch not in 'ACGT' for ch in case['codon']) or (isinstance(got, list) and any(got[1:])):
         return 'amb' if any(ch not in 'ACGT' for ch in case['codon']) else 'flag'
     return None
 
 
 def histkey(case, got):
+    if case.get('ttinv'):
+        return ['ttinv', 'table=%d' % case['id']]
     n = sum(ch not in 'ACGT' for ch in case['codon'])
     return ['ambiguous_letters=%d' % n, 'table=%d' % case['id']]
 
 
 def python_snippet(case):
+    if case.get('ttinv'):
+        return "from sugar.data import gcode; print({k: sorted(v) for k, v in gcode(%d).ttinv.items()})" % case['id']
     return ("from sugar.data import gcode; gc=gcode(%d); c=%r; print(gc.tt.get(c), c in gc.starts, c in gc.stops, c in gc.astarts, c in gc.astops)"
             % (case['id'], case['codon']))
 
@@ -259,7 +287,9 @@ def search_cases(broken, rng):
     """a table theorem failed: enumerate the whole table (or all tables) with the independent oracle"""
     ids = [int(m) for b in broken for m in re.findall(r'G_gcrec_(\d+)\.v', b)] or list(IDS)
     for t in ids:
+        yield {'id': t, 'ttinv': True}
         for c in itertools.product(LETTERS, repeat=3):
             yield {'id': t, 'codon': ''.join(c)}
 
 MODELLED_FUNCS = {'sugar/data/__init__.py': ['gcode']}
+NO_SHRINK_KEYS = {'ttinv', 'id'}
